@@ -531,3 +531,23 @@ pub fn log_loc_stub() -> &'static std::panic::Location<'static> {
     static FAKE: [u64; 8] = [0; 8];
     unsafe { &*(FAKE.as_ptr() as *const std::panic::Location<'static>) }
 }
+
+/// `alloc::fmt::format` replacement for the ONC-RPC GETADDR / DUMP bodies: arbitrary printable
+/// text of the length chosen by the harness (the same text at every call, calls counted).
+/// What is cut: the text itself (address and port rendering); what stays real: everything the
+/// responder does with the text (XDR length, padding, list structure).
+pub static mut FMT_LEN: usize = 0;
+pub static mut FMT_CALLS: usize = 0;
+pub static mut FMT_BYTES: [u8; 16] = [0; 16];
+pub fn fmt_any_stub(_args: std::fmt::Arguments<'_>) -> String {
+    unsafe {
+        FMT_CALLS += 1;
+        let mut v: std::vec::Vec<u8> = std::vec::Vec::with_capacity(FMT_LEN);
+        let mut i = 0;
+        while i < FMT_LEN {
+            v.push(FMT_BYTES[i]);
+            i += 1;
+        }
+        String::from_utf8_unchecked(v)
+    }
+}
